@@ -4,8 +4,12 @@ pub mod c03;
 pub mod c04;
 pub mod c07;
 pub mod c08;
+pub mod c09;
+pub mod c10;
+pub mod c11;
 pub mod c12;
 pub mod c13;
+pub mod c17;
 pub mod c14;
 pub mod c19;
 
